@@ -230,6 +230,14 @@ Example C07_path_order_laws_are_not_vacuous :
   Model.Imports.sort_by (fun s => s) ["os"; "a.b/c"; "golang.org/x/b"; "fmt"]%string = ["fmt"; "os"; "a.b/c"; "golang.org/x/b"]%string.
 Proof. exact path_order_laws_nonvacuous. Qed.
 
+(* the same for import specs sorted by their path (the rearrangement of the first import block after an
+   addition, sort.Slice over blocks[0].Specs): when no path occurs twice in the block, any rearrangement
+   sorted by packagePathOrderLess is the model's sort_by s_path *)
+Theorem C07_any_sort_of_specs_by_path_is_the_models : forall (l l' : list Model.Imports.spec),
+  NoDup (map Model.Imports.s_path l) -> Permutation l l' -> StronglySorted (plk Model.Imports.s_path) l' ->
+  l' = Model.Imports.sort_by Model.Imports.s_path l.
+Proof. exact (any_sort_is_the_models_k Model.Imports.s_path). Qed.
+
 Print Assumptions C07_conflicts_resolved_in_sorted_order.
 Print Assumptions C07_conflict_loop_finds_a_free_name.
 Print Assumptions C07_import_names_pairwise_distinct.
@@ -249,3 +257,4 @@ Print Assumptions C07_effective_alias_loops_run.
 Print Assumptions C07_path_order_is_a_strict_total_order.
 Print Assumptions C07_any_sort_by_the_path_order_is_the_models.
 Print Assumptions C07_sorted_paths_ignore_collection_order.
+Print Assumptions C07_any_sort_of_specs_by_path_is_the_models.
